@@ -575,7 +575,7 @@ func c01Siblings(c *Ctx, r *Result) {
 			r.Instance("R01d", site, pos, "ok", fmt.Sprintf("negative guard pre %s ⊆ match %s; descents match {%s} ⊆ pre {%s}", rel(pg), rel(mg), keysOf(md), keysOf(pd)), true)
 		}
 	}
-	r.Floor("R01d", n, 3)
+	r.Floor("R01d", n, 2)
 }
 
 func keysOf(m map[string]bool) string {
